@@ -45,6 +45,7 @@ package engine_test
 import (
 	"fmt"
 	"math"
+	"runtime"
 	"sort"
 	"strings"
 	"testing"
@@ -925,6 +926,44 @@ func TestVerifC18Engine(t *testing.T) {
 				sameRange("after a late insert")
 				ctx.Count("engine.late_insert_cases", 1)
 				late = true
+				// ... and a late BATCH of more vectors than there are CPUs (copies of distinct
+				// stored vectors): with the index at or above efConstruction it takes the parallel
+				// insert path of the index's current precision; every one of them, and everything
+				// stored before, must read back as stored
+				if r.Chance(0.6) {
+					nb := runtime.NumCPU()*2 + r.Range(1, 9)
+					var lb []types.BatchObject
+					for k := 0; k < nb; k++ {
+						src := c.ids[(k*7+r.Intn(3))%len(c.ids)]
+						id := fmt.Sprintf("lateb%03d", k)
+						lb = append(lb, types.BatchObject{Id: id, Vector: append([]float32(nil), c.stored[src]...)})
+						c.raw[id] = append([]float32(nil), c.stored[src]...)
+						c.stored[id] = c.stored[src]
+					}
+					imp := r.Chance(0.3)
+					cs.Op("late batch of %d vectors (import=%v), index holds %d, efC=%d", nb, imp, len(c.ids), c.cfg.EfC)
+					var err error
+					if imp {
+						// an import is durable only once it is committed
+						if err = c.e.VImport(c.name, lb); err == nil {
+							err = c.e.VImportCommit(c.name)
+						}
+					} else {
+						err = c.e.VAddBatch(c.name, lb)
+					}
+					if err != nil {
+						cs.Fail("late batch: %v", err)
+					}
+					for _, it := range lb {
+						c.ids = append(c.ids, it.Id)
+					}
+					c.readAll("after a late batch", c.stored)
+					sameRange("after a late batch")
+					ctx.Count("engine.late_batch_cases", 1)
+					if len(c.ids)-nb >= c.cfg.EfC {
+						ctx.Count("engine.late_batch_parallel_path", 1)
+					}
+				}
 			}
 			// a second restart: now the state comes from a snapshot plus the tail of the log
 			again := r.Chance(0.3)
